@@ -49,6 +49,9 @@ def json_dbs():
         'solo': ['646f633030303031'],                                   # b'doc00001' - one posting, printable (utf8 format)
         'block': ['646f633030303032', '646f633030303033', '646f633030303034', 'AB00000000000001'],   # block boundary (B = 2), mixed case hex
         'ünï-cødé': ['00000000000000ff', '0100000000000000', '646f633030303031'],
+        # the same word in composed and in decomposed Unicode form, the Angstrom sign and the letter it decomposes to: four
+        # different keywords (a keyword is the UTF-8 of the text as it stands in the file)
+        'caf\u00e9': ['c0ffee0000000001'], 'cafe\u0301': ['c0ffee0000000002', 'c0ffee0000000003'], '\u212b': ['a000000000000001'], '\u00c5': ['a000000000000002'],
     }
     db3 = {'only': ['00000000000000a1', '00000000000000a2', '00000000000000a3', '00000000000000a4']}   # one keyword holds the whole database, N = 2^2
     db4 = {'lone': ['1122334455667788']}                                                                  # one keyword, one posting
